@@ -12,7 +12,8 @@ package boc
 //      (full product for <= 2 cells, 8 assignments per shape for 3 cells, 1 rotating/random assignment otherwise);
 //      every 5th case replaces leaves by library / pruned-branch cells, every 3rd case is serialised as a 2-root bag;
 //      x all 8 combinations of (idx, hasCrc32, cacheBits).
-//      Thorough: all 5-cell shapes with <= 3 refs, 6-cell shapes with <= 2 refs, denser samples, more lengths.
+//      Thorough: full length product for 3 cells, 4 assignments per 4-cell shape, every 2nd 5-cell shape with <= 3 refs and
+//      6-cell shape with <= 2 refs, samples of the 5/6-cell shapes with 4 refs, more lengths.
 //      Per case: container layout against the TL-B definition (flag byte, minimal ref width, cell count == number of distinct
 //      reference hashes, topological order, index entries == end offsets (doubled + cache bit when cacheBits), CRC32C),
 //      parse back, structural equality with the input, reference hash equality;
@@ -191,9 +192,12 @@ func (e *c01Env) partA() {
 		lens = append(lens, 2, 6, 15, 16, 17, 255, 256, 257, 1016, 1017, 1022)
 	}
 	caseNo := 0
+	perN := map[int]int{}
+	defer func() { e.t.Logf("A: enumerated inputs per cell count: %v", perN) }()
 	run := func(s refShape, bl []int) {
 		caseNo++
 		n := len(s)
+		perN[n]++
 		sp := &refBuildSpec{shape: s, bitLens: bl, seed: uint64(refSeed()) + uint64(caseNo%17), same: caseNo%7 == 0}
 		if caseNo%5 == 0 {
 			sp.exotic = make([]int, n)
@@ -253,9 +257,9 @@ func (e *c01Env) partA() {
 		full(3)
 		some(3, 4, 12, 1)
 		some(4, 4, 4, 1)
-		some(5, 3, 1, 1)
-		some(5, 4, 1, 97)
-		some(6, 2, 1, 1)
+		some(5, 3, 1, 2)
+		some(5, 4, 1, 197)
+		some(6, 2, 1, 2)
 		some(6, 4, 1, 99991)
 	} else {
 		some(3, 4, 8, 1)
@@ -628,13 +632,13 @@ func (e *c01Env) partC() {
 	caseNo := 0
 	maxN, every := 4, 23
 	if e.thorough {
-		maxN, every = 5, 7
+		maxN, every = 5, 3
 	}
 	for n := 1; n <= maxN; n++ {
 		cnt := 0
 		refEnumShapes(n, 4, func(s refShape) bool {
 			cnt++
-			if n >= 4 && cnt%every != 0 {
+			if n == 4 && cnt%every != 0 || n == 5 && cnt%499 != 0 {
 				return true
 			}
 			caseNo++
